@@ -2,10 +2,10 @@
 """Apply each seeded change to /repo, run the checks of its property (and any extra ones given),
 undo it, and record which checks raised an alarm in seeded/<id>/meta.json.
 usage: seed_pipeline.py <PROP>/<n>[:extra,extra] ..."""
-import json, shutil, subprocess, sys, time
+import json, os, shutil, subprocess, sys, time
 from pathlib import Path
-V = Path("/verif")
-S = "/tmp/repo-scratch"   # a detached worktree of /repo HEAD: seeds are applied HERE, /repo itself is never touched
+V = Path(os.environ.get("VERIF_DIR", "/verif"))
+S = os.environ.get("SCRATCH", "/tmp/repo-scratch")   # a detached worktree of /repo HEAD: seeds are applied HERE, /repo itself is never touched
 
 def sh(cmd, **kw):
     return subprocess.run(cmd, shell=True, capture_output=True, text=True, **kw)
@@ -14,18 +14,35 @@ import os
 if not Path(S).exists():
     sh(f"git -C /repo worktree add -q --detach {S} HEAD")
 sh(f"git -C {S} checkout -q --detach $(git -C /repo rev-parse HEAD) ; git -C {S} checkout -q -- . ; git -C {S} reset -q")
-for arg in sys.argv[1:]:
+args = sys.argv[1:]
+if args == ["--all"]:          # re-verify every recorded seed with the checks recorded for it
+    args = []
+    for d in sorted((V / "seeded").glob("C*-*")):
+        try:
+            mm = json.loads((d / "meta.json").read_text())
+        except Exception:
+            continue
+        cks = list((mm.get("verification") or {}).get("checks", {})) or [d.name.split("-")[0]]
+        own = d.name.split("-")[0]
+        args.append(d.name + ":" + ",".join(c for c in cks if c != own))
+for arg in args:
     sid, _, extra = arg.partition(":")
-    prop, n = sid.split("/")
-    import os
-    src = Path(os.environ.get("SEED_BASE", "/tmp/seed")) / prop / "out" / n
-    if os.environ.get("SEED_FLAT"):
-        src = Path(os.environ["SEED_BASE"]) / prop / n
-    dst = V / "seeded" / f"{prop}-{int(n) + int(os.environ.get('NOFF', '0'))}"
-    dst.mkdir(parents=True, exist_ok=True)
-    for f in ("patch.diff", "demo.py", "meta.json"):
-        if (src / f).exists():
-            shutil.copy(src / f, dst / f)
+    if "-" in sid:             # an already recorded seed: seeded/<sid>
+        prop = sid.split("-")[0]
+        dst = V / "seeded" / sid
+        src = dst
+        n = None
+    else:
+        prop, n = sid.split("/")
+    if n is not None:
+        src = Path(os.environ.get("SEED_BASE", "/tmp/seed")) / prop / "out" / n
+        if os.environ.get("SEED_FLAT"):
+            src = Path(os.environ["SEED_BASE"]) / prop / n
+        dst = V / "seeded" / f"{prop}-{int(n) + int(os.environ.get('NOFF', '0'))}"
+        dst.mkdir(parents=True, exist_ok=True)
+        for f in ("patch.diff", "demo.py", "meta.json"):
+            if (src / f).exists():
+                shutil.copy(src / f, dst / f)
     meta = json.loads((dst / "meta.json").read_text()) if (dst / "meta.json").exists() else {}
     assert sh(f"git -C {S} status --short").stdout.strip() == "", "scratch repo not clean"
     how = "apply patch.diff"
@@ -56,7 +73,7 @@ for arg in sys.argv[1:]:
         res[p] = {"exit": c.returncode, "violations": len(vio), "no_failing_input": sum("no-failing-input-found" in l for l in vio), "first": rep, "wall_s": round(time.time() - t)}
     sh(f"git -C {S} checkout -- . ; git -C {S} reset -q")
     assert sh(f"git -C {S} status --short").stdout.strip() == "", "scratch repo not restored"
-    if "verification" in meta and "first_pass" not in meta and meta["verification"].get("checks"):
+    if "verification" in meta and "first_pass" not in meta and meta["verification"].get("checks") and int(dst.name.split("-")[1]) >= 5:
         meta["first_pass"] = meta["verification"]          # what the checks reported before they were strengthened
     meta["verification"] = {"applied_with": f"git -C {S} {how} (scratch worktree of the repaired tree, checks run with VERIF_REPO pointing at it), undone with git checkout",
                             "demo_exit_on_patched_repo": d.returncode, "checks": res,
